@@ -5,6 +5,10 @@ functions (print a label, then divide by zero), placed in every evaluation conte
 The transcript IS the event order: each label is unique inside a program, so the printed labels tell
 which operands were evaluated, how often and in which order.
 
+State of the implementation this generator assumes: short-circuit (a51b767), subscript order (2967bbb) and
+`a[i] = f()` (df79998) are repaired, so those shapes belong to the main stream; the only shapes kept apart are the
+two open findings (typed re-evaluation of subscript lists, println retry).
+
 All randomness comes from the `rng` passed in.  Every program carries a small feature set (`feats`)
 used for the coverage histogram and for matching recorded findings.
 """
@@ -102,12 +106,16 @@ def program(ctx, e, extra_funcs=(), pre=""):
 VALS = [0, 1, 2, -1]
 PRINT_CTX = ("print", "print2")
 
-# shapes of the recorded deviations (known_findings/C03.json); None = the implementation is expected to agree with Ref
-SC = "C03-short-circuit"
-MI = "C03-multi-index-order"
-ET = "C03-elem-assign-call-twice"
+# shapes of the recorded deviations (known_findings/C03.json); None = the implementation is expected to agree with Ref.
+# Repaired in /repo and therefore part of the main stream now: short-circuit (a51b767), subscript order (2967bbb),
+# a[i] = f() (df79998).  Still open: a typed read evaluates its subscript list twice unless it is one in-range
+# subscript (TW); println re-evaluates an argument that failed (PR).
+SC = None
+ET = None
 PR = "C03-println-retry"
-IT = "C03-index-twice-out-of-bounds"
+TW = "C03-index-evaluated-twice"
+MI = TW       # multi-dimensional reads with traced subscripts: order is right now, multiplicity is not (typed contexts)
+IT = TW
 
 
 def _shape(ctx, e, can_fail, shape=None):
@@ -116,8 +124,6 @@ def _shape(ctx, e, can_fail, shape=None):
         return shape
     if ctx in PRINT_CTX and can_fail:
         return PR                      # println re-evaluates an argument whose evaluation failed
-    if ctx == "elem-store" and e.startswith("(call"):
-        return ET                      # a[i] = f(..) evaluates the call twice
     return None
 
 
@@ -200,11 +206,11 @@ def systematic(rng=None):
     # stores through traced indices
     G, Fs = " ".join(GLOBALS), " ".join(PRELUDE)
     yield ("(P (%s) (%s) ((asg (idx %d %s) (bin + %s 0)) (print 1 (idx %d 2))))" % (G, Fs, V_ARR, tr(101, 2), tr(102, 5), V_ARR)), ("store1", "stmt", "value-then-index"), None
-    yield ("(P (%s) (%s) ((asg (idx %d %s) %s) (print 1 (idx %d 2))))" % (G, Fs, V_ARR, tr(101, 2), tr(102, 5), V_ARR)), ("store1", "stmt", "bare-call"), ET
-    yield ("(P (%s) (%s) ((asg (idx %d 0) %s) (print 1 (idx %d 0))))" % (G, Fs, V_ARR, tr(101, 5), V_ARR)), ("store1", "stmt", "bare-call"), ET
-    yield ("(P (%s) (%s) ((asg (idx %d %s %s) %s) (print 1 (idx %d 1 0))))" % (G, Fs, V_MAT, tr(101, 1), tr(102, 0), tr(107, 7), V_MAT)), ("store2", "stmt", "bare-call"), MI
-    yield ("(P (%s) (%s) ((asg (idx %d %s %s) (bin + %s 0)) (print 1 (idx %d 1 0))))" % (G, Fs, V_MAT, tr(101, 1), tr(102, 0), tr(107, 7), V_MAT)), ("store2", "stmt", "expr"), MI
-    yield ("(P (%s) (%s) ((asg (idx %d %s %s %s) 5) (print 1 (idx %d 1 0 1))))" % (G, Fs, V_CUBE, tr(101, 1), tr(102, 0), tr(103, 1), V_CUBE)), ("store3", "stmt", "literal"), MI
+    yield ("(P (%s) (%s) ((asg (idx %d %s) %s) (print 1 (idx %d 2))))" % (G, Fs, V_ARR, tr(101, 2), tr(102, 5), V_ARR)), ("store1", "stmt", "bare-call"), None
+    yield ("(P (%s) (%s) ((asg (idx %d 0) %s) (print 1 (idx %d 0))))" % (G, Fs, V_ARR, tr(101, 5), V_ARR)), ("store1", "stmt", "bare-call"), None
+    yield ("(P (%s) (%s) ((asg (idx %d %s %s) %s) (print 1 (idx %d 1 0))))" % (G, Fs, V_MAT, tr(101, 1), tr(102, 0), tr(107, 7), V_MAT)), ("store2", "stmt", "bare-call"), None
+    yield ("(P (%s) (%s) ((asg (idx %d %s %s) (bin + %s 0)) (print 1 (idx %d 1 0))))" % (G, Fs, V_MAT, tr(101, 1), tr(102, 0), tr(107, 7), V_MAT)), ("store2", "stmt", "expr"), None
+    yield ("(P (%s) (%s) ((asg (idx %d %s %s %s) 5) (print 1 (idx %d 1 0 1))))" % (G, Fs, V_CUBE, tr(101, 1), tr(102, 0), tr(103, 1), V_CUBE)), ("store3", "stmt", "literal"), None
 
 
 # ------------------------------------------------------------------------------------------------
@@ -256,7 +262,7 @@ class TreeGen:
             op = r.choice(["and", "or"])
             self.feats.add(op)
             a = self.expr(d - 1)
-            b = self.quiet(d - 1) if self.avoid else self.expr(d - 1)
+            b = self.quiet(d - 1) if self.r.random() < 0.2 else self.expr(d - 1)   # a51b767: the skipped operand may do anything
             return "(%s %s %s)" % (op, a, b)
         if k < 0.60:
             op = r.choice(["-", "!", "~"])
@@ -285,21 +291,15 @@ class TreeGen:
             return tr(self.lab.next(), r.choice([0, 1, 2, 5])) if r.random() < 0.85 else (bad(self.lab.next()) if r.random() < 0.5 else str(r.choice([0, 1, 7])))
         if k < 0.6:
             return "(call %d %s)" % (F_ID, self.expr(d - 1))
-        old, self.multi_index = self.multi_index, False    # finding C01-ternary-multidim-segv: no multi-dimensional element inside a branch
-        try:
-            if k < 0.8:
-                return self.expr(d - 1)
-            return "(cond %s %s %s)" % (self.expr(d - 1), self.branch(d - 1), self.branch(d - 1))
-        finally:
-            self.multi_index = old
+        if k < 0.8:
+            return self.expr(d - 1)      # (multi-dimensional elements included: the crash of C01-ternary-multidim-segv is gone, 7c216d9)
+        return "(cond %s %s %s)" % (self.expr(d - 1), self.branch(d - 1), self.branch(d - 1))
 
 
 def random_program(rng, avoid=True, multi_index=False):
     g = TreeGen(rng, avoid=avoid, multi_index=multi_index)
     ctx = rng.choice(CONTEXTS)
     e = g.expr(rng.choice([1, 2, 2, 3]))
-    if ctx == "elem-store" and avoid and e.startswith("(call"):
-        e = "(bin + %s 0)" % e          # finding C03-elem-assign-call-twice: never a bare call
     if ctx in PRINT_CTX and avoid and (("(call %d " % F_BAD) in e or "(bin / " in e or "(bin % " in e):
         ctx = "init"                    # finding C03-println-retry: println re-evaluates an argument that failed
     return program(ctx, e), ("random", ctx) + tuple(sorted(g.feats))
